@@ -199,6 +199,12 @@ def check_trace(tr, drv, max_frames=80, mask=None):
     ends = list(getattr(tr, 'run_ends', None) or [])
     runs = cfg['run'] if isinstance(cfg['run'][0], list) else [cfg['run']]
     ci = 0
+    # the hypothesis of the T2 theorems (Conserve.WFx []) evaluated on the real engine's initial snapshot
+    v0 = drv.ask('m34', sx.dump(enc_state(prev, cfg, nxt, now if isinstance(now, int) else 0)))
+    res['wfx_init'] = (v0[1].strip() if v0[0] == 'M' else str(v0))
+    if res['wfx_init'] != '1':
+        res['mismatch'] = {'frame': 0, 'what': 'the initial snapshot does not satisfy the invariant WFx [] of the T2 theorems', 'got': res['wfx_init']}
+        return res
     for k, f in enumerate(tr.frames[:max_frames]):
         crossed = False
         while ci < len(ends) and ends[ci]['frames'] == k:
